@@ -71,6 +71,7 @@ func checkC10(c *Ctx, r *Report) {
 			c.checkCopyPos(r, "C10.R3.copy-faithful", t)
 		}
 	}
+	c10DedupAfterSort(c, r, "C10.R1.dedup-after-sort")
 }
 
 // c17R6as runs the RSA size-limit rule under another rule id (shared by C10, C17, C18).
